@@ -1435,3 +1435,4 @@ EXPLANATION += (
     " Shared with C08 (R08.2/R08.3): the slot ArrayMap.collect reserves for "
     "a map variable has the size of the descriptor attribute lookup finds, "
     "so a load or store of one operand never covers its neighbour.")
+EXPLANATION += (" Added after wave 9: (R01.5) load() is told the width the caller asked for (the `long` parameter reaches it unchanged); (R01.7) nothing derived from a Constant's value is memoised; (R01.12) the stack slot of a computed value outlives the use of its address (shared with C04/C09).")
